@@ -30,12 +30,14 @@ Definition dec_ev (v : tval) : ev :=
                                        then Some (if (a 5%nat =? 0) || (a 6%nat =? 0) then 0 else hmac_corr (a 5%nat) (a 6%nat))
                                        else None;
                              h_tunnel := vbool (vnth 7 v) |}
+  | 25 => EBanPerm (a 1%nat) | 26 => ETempLapse (a 1%nat)
+  | 27 => EBlackW (a 1%nat) | 28 => EUnblackW (a 1%nat) | 29 => EBlackLapse (a 1%nat) (a 2%nat)
   | 14 => ECorrupt (a 1%nat) (vbool (vnth 2 v))
   | _ => EDelAnon (a 1%nat)
   end.
 
 Definition dec_variant (v : tval) : variant :=
-  {| v_success_gate := vbool (vnth 0 v); v_anon_delete := vbool (vnth 1 v); v_first_keeps := vbool (vnth 2 v) |}.
+  {| v_success_gate := vbool (vnth 0 v); v_anon_delete := vbool (vnth 1 v); v_first_keeps := vbool (vnth 2 v); v_ban_monotone := vbool (vnth 3 v) |}.
 
 Definition b2n (b : bool) : N := if b then 1 else 0.
 Definition on (o : option N) : N := match o with Some n => n | None => 0 end.
